@@ -45,7 +45,7 @@ def confirm(d):
             if dj.get("pre"):
                 sh(dj["pre"], cwd=wt)
             r = sh(cmd, cwd=wt)
-            res["demo_fails_with_mutant"] = r.returncode != 0 and ("test result: FAILED" in r.stdout or "panicked" in (r.stdout + r.stderr))
+            res["demo_fails_with_mutant"] = r.returncode != 0 and ("test result: FAILED" in r.stdout or "panicked" in (r.stdout + r.stderr) or "overflowed its stack" in (r.stdout + r.stderr) or "(signal:" in (r.stdout + r.stderr))
             sh(f"git -C {wt} apply -R {patch}")
             r = sh(cmd, cwd=wt)
             res["demo_passes_without"] = r.returncode == 0
